@@ -173,6 +173,9 @@ def pacing_scenarios(tier):
                                                 conns=[C("A", "B", "po", "mi")]), [0, 0.5, 1.5]))
         out.append((f"rt_indep2_{rf}x{tr}", dict(base, until=3, sims=[T("A"), T("B", 2)], conns=[]),
                     [0, 1.5]))
+    out.append(("rt_group", dict(rt_factor=1, until=3, groups={"g": None},
+                                 sims=[T("A", group="g"), T("B", group="g"), T("X")],
+                                 conns=[C("A", "B", "po", "mi")]), [0, 1.5]))
     out.append(("rt_indep3", dict(rt_factor=1, until=2, sims=[T("A"), T("B"), T("X")], conns=[]), [0, 1.5]))
     out.append(("rt_chain3", dict(rt_factor=1, until=3, sims=[T("A"), T("B"), E("Z")],
                                   conns=[C("A", "B", "po", "mi"), C("B", "Z", "po", "ti")]), [0, 1.5]))
@@ -294,7 +297,8 @@ def check(prop, tier):
                    ["virtual clock: perf_counter = virtual time + n*2^-30 (strictly increasing)",
                     "latency alphabet {instant, 0.5f, 1.5f, 2.5f}; events on a grid of f/2",
                     "only future events (t greater than the current real-time step index) are injected",
-                    "simulators outside groups (set_event addresses plain integer times)"],
+                    "external events only for simulators outside groups (set_event addresses plain "
+                    "integer times)"],
                    time.time() - t0, len(rep.violations))
     print(f"C17 {tier}: scenarios={len(jobs)} executions={total} violations={len(rep.violations)} "
           f"known={sum(v[1] for v in rep.known_hits.values())} wall={time.time() - t0:.1f}s")
